@@ -48,92 +48,63 @@ fn report(t: &mut Tally, entry: &str, msg: &str, order: (u64, u64), case: impl F
 // stateless entry points
 // ---------------------------------------------------------------------------------------------
 
-type Poke = (&'static str, fn(&[u8]));
+/// entry point name and a probe returning a small outcome class (None/Some, false/true, Err/Ok...)
+type Poke = (&'static str, fn(&[u8]) -> u32);
 
 fn stateless_fns() -> Vec<Poke> {
     vec![
         ("common::find_start_code", |d| {
+            let mut c = 0;
             for from in [0usize, 1, 2, d.len(), d.len() + 1, usize::MAX] {
-                let _ = common::find_start_code(d, from);
+                c = c * 3 + common::find_start_code(d, from).map(|x| x.1 as u32 - 2).unwrap_or(0);
             }
+            c
         }),
-        ("common::AnnexBNalIter", |d| {
-            let _ = common::AnnexBNalIter::new(d).count();
+        ("common::AnnexBNalIter", |d| common::AnnexBNalIter::new(d).count().min(4) as u32),
+        ("h264::extract_avc_config", |d| match h264::extract_avc_config(d) {
+            Some(c) => 1 + ((c.profile_idc() as u32 + c.profile_compatibility() as u32 + c.level_idc() as u32) & 1),
+            None => 0,
         }),
-        ("h264::extract_avc_config", |d| {
-            if let Some(c) = h264::extract_avc_config(d) {
-                let _ = (c.profile_idc(), c.profile_compatibility(), c.level_idc());
-            }
+        ("h264::annexb_to_avcc", |d| (h264::annexb_to_avcc(d).len() > d.len()) as u32),
+        ("h264::is_h264_keyframe", |d| h264::is_h264_keyframe(d) as u32),
+        ("h265::extract_hevc_config", |d| match h265::extract_hevc_config(d) {
+            Some(c) => 1 + ((c.general_profile_space() as u32 + c.general_tier_flag() as u32 + c.general_profile_idc() as u32 + c.general_level_idc() as u32) & 1),
+            None => 0,
         }),
-        ("h264::annexb_to_avcc", |d| {
-            let _ = h264::annexb_to_avcc(d);
-        }),
-        ("h264::is_h264_keyframe", |d| {
-            let _ = h264::is_h264_keyframe(d);
-        }),
-        ("h265::extract_hevc_config", |d| {
-            if let Some(c) = h265::extract_hevc_config(d) {
-                let _ = (c.general_profile_space(), c.general_tier_flag(), c.general_profile_idc(), c.general_level_idc());
-            }
-        }),
-        ("h265::hevc_annexb_to_hvcc", |d| {
-            let _ = h265::hevc_annexb_to_hvcc(d);
-        }),
-        ("h265::is_hevc_keyframe", |d| {
-            let _ = h265::is_hevc_keyframe(d);
-        }),
-        ("h265::hevc_nal_type", |d| {
-            let _ = h265::is_hevc_keyframe_nal_type(h265::hevc_nal_type(d));
-        }),
+        ("h265::hevc_annexb_to_hvcc", |d| (h265::hevc_annexb_to_hvcc(d).len() > d.len()) as u32),
+        ("h265::is_hevc_keyframe", |d| h265::is_hevc_keyframe(d) as u32),
+        ("h265::hevc_nal_type", |d| h265::is_hevc_keyframe_nal_type(h265::hevc_nal_type(d)) as u32),
         ("av1::header-helpers", |d| {
+            let mut c = 0;
             if let Some(&b) = d.first() {
-                let _ = (av1::obu_type(b), av1::obu_has_extension(b), av1::obu_has_size(b));
+                c = (av1::obu_type(b) as u32 & 1) + 2 * av1::obu_has_extension(b) as u32 + 4 * av1::obu_has_size(b) as u32;
             }
-            let _ = av1::read_leb128(d);
-            let _ = av1::parse_obu_header(d);
+            c + 8 * av1::read_leb128(d).is_some() as u32 + 16 * av1::parse_obu_header(d).is_some() as u32
         }),
-        ("av1::ObuIter", |d| {
-            let _ = av1::ObuIter::new(d).count();
+        ("av1::ObuIter", |d| av1::ObuIter::new(d).count().min(4) as u32),
+        ("av1::extract_av1_config", |d| av1::extract_av1_config(d).is_some() as u32),
+        ("av1::is_av1_keyframe", |d| av1::is_av1_keyframe(d) as u32),
+        ("vp9::is_vp9_keyframe", |d| match vp9::is_vp9_keyframe(d) {
+            Ok(b) => b as u32,
+            Err(e) => 2 + (e.to_string().len() as u32 & 3),
         }),
-        ("av1::extract_av1_config", |d| {
-            let _ = av1::extract_av1_config(d);
-        }),
-        ("av1::is_av1_keyframe", |d| {
-            let _ = av1::is_av1_keyframe(d);
-        }),
-        ("vp9::is_vp9_keyframe", |d| {
-            let _ = vp9::is_vp9_keyframe(d).map_err(|e| e.to_string());
-        }),
-        ("vp9::extract_vp9_config", |d| {
-            let _ = vp9::extract_vp9_config(d);
-        }),
-        ("vp9::is_valid_vp9_frame", |d| {
-            let _ = vp9::is_valid_vp9_frame(d);
-        }),
+        ("vp9::extract_vp9_config", |d| vp9::extract_vp9_config(d).is_some() as u32),
+        ("vp9::is_valid_vp9_frame", |d| vp9::is_valid_vp9_frame(d) as u32),
         ("opus::packet-functions", |d| {
+            let mut c = 0;
             if let Some(&b) = d.first() {
-                let _ = opus::opus_frame_duration_from_toc(b).map(|x| (x.samples(), x.seconds()));
+                c = opus::opus_frame_duration_from_toc(b).map(|x| (x.samples() > 480) as u32 + (x.seconds() > 0.0) as u32).unwrap_or(0);
             }
-            let _ = opus::opus_frame_count(d);
-            let _ = opus::opus_packet_samples(d);
-            let _ = opus::is_valid_opus_packet(d);
+            c + 4 * opus::opus_frame_count(d).is_some() as u32 + 8 * opus::opus_packet_samples(d).is_some() as u32 + 16 * opus::is_valid_opus_packet(d) as u32
         }),
-        ("validation::validate_video_frame/H264", |d| {
-            let _ = validation::validate_video_frame(VideoCodec::H264, d, true);
-        }),
-        ("validation::validate_video_frame/H265", |d| {
-            let _ = validation::validate_video_frame(VideoCodec::H265, d, d.len() % 2 == 0);
-        }),
-        ("validation::validate_video_frame/Av1", |d| {
-            let _ = validation::validate_video_frame(VideoCodec::Av1, d, true);
-        }),
-        ("validation::validate_video_frame/Vp9", |d| {
-            let _ = validation::validate_video_frame(VideoCodec::Vp9, d, false);
-        }),
+        ("validation::validate_video_frame/H264", |d| validation::validate_video_frame(VideoCodec::H264, d, true).is_valid as u32),
+        ("validation::validate_video_frame/H265", |d| validation::validate_video_frame(VideoCodec::H265, d, d.len() % 2 == 0).is_valid as u32),
+        ("validation::validate_video_frame/Av1", |d| validation::validate_video_frame(VideoCodec::Av1, d, true).is_valid as u32),
+        ("validation::validate_video_frame/Vp9", |d| validation::validate_video_frame(VideoCodec::Vp9, d, false).is_valid as u32),
         ("validation::validate_audio_frame", |d| {
-            let _ = validation::validate_audio_frame(AudioCodec::Aac(muxide::api::AacProfile::Lc), d);
-            let _ = validation::validate_audio_frame(AudioCodec::Opus, d);
-            let _ = validation::validate_audio_frame(AudioCodec::None, d);
+            validation::validate_audio_frame(AudioCodec::Aac(muxide::api::AacProfile::Lc), d).is_valid as u32
+                + 2 * validation::validate_audio_frame(AudioCodec::Opus, d).is_valid as u32
+                + 4 * validation::validate_audio_frame(AudioCodec::None, d).is_valid as u32
         }),
     ]
 }
@@ -141,8 +112,14 @@ fn stateless_fns() -> Vec<Poke> {
 fn poke_all(fns: &[Poke], d: &[u8], order: (u64, u64), t: &mut Tally) {
     for (name, f) in fns {
         t.evaluations += 1;
-        if let Err(p) = guarded(|| f(d)) {
-            report(t, name, &p, order, || json!({"engine": "E2-c12-stateless", "entry": name, "input": hex(d)}));
+        match guarded(|| f(d)) {
+            Ok(class) => {
+                // distinct outcome = (entry point, input length class, return class)
+                let mut h = oracle::report::Fnv::new();
+                h.str(name).u64(d.len().min(9) as u64).u64(class as u64);
+                t.outcome(h.0);
+            }
+            Err(p) => report(t, name, &p, order, || json!({"engine": "E2-c12-stateless", "entry": name, "input": hex(d)})),
         }
     }
 }
@@ -869,7 +846,7 @@ pub fn check(ctx: &Ctx) -> i32 {
         &tally,
         Meta {
             level: "exploration",
-            rule: format!("stateless: {} public entry points of codec::* and validation on (i) all byte strings of length <= 2 over all 256 values (thorough: also length 3 for the header parsers), (ii) all strings of length <= {slen} over four 10-byte boundary alphabets, (iii) all 2^{bits} AV1 sequence-header payloads of {bits} bits, (iv) every truncation, every single and (first 12 bytes) double boundary-byte substitution of {n_ex} valid exemplars; stateful: every Muxer method in 7 lifecycle states (+ after a failed finish) with every argument tuple over a 14-value f64 alphabet, 6 video / 6 audio payload shapes and integer extremes, each followed by finish, over {n_mc} configurations (dimension, frame-rate, sample-rate, channel, title, creation-time and language extremes); FragmentedMuxer: every call sequence of length <= {fdepth} over 70 calls (64 pts/dts pairs over u64 extremes) on {n_fc} FragmentConfig values incl. timescale 0 and empty / 70000-byte parameter sets; builder parameter product; ADTS error values; 12 creation times up to u64::MAX in child processes with a 5 s limit. Oracle: no unwind (catch_unwind, overflow checks and debug assertions on), no stall. distinct_nontrivial counts entry points exercised.", fns.len()),
+            rule: format!("stateless: {} public entry points of codec::* and validation on (i) all byte strings of length <= 2 over all 256 values (thorough: also length 3 for the header parsers), (ii) all strings of length <= {slen} over four 10-byte boundary alphabets, (iii) all 2^{bits} AV1 sequence-header payloads of {bits} bits, (iv) every truncation, every single and (first 12 bytes) double boundary-byte substitution of {n_ex} valid exemplars; stateful: every Muxer method in 7 lifecycle states (+ after a failed finish) with every argument tuple over a 14-value f64 alphabet, 6 video / 6 audio payload shapes and integer extremes, each followed by finish, over {n_mc} configurations (dimension, frame-rate, sample-rate, channel, title, creation-time and language extremes); FragmentedMuxer: every call sequence of length <= {fdepth} over 70 calls (64 pts/dts pairs over u64 extremes) on {n_fc} FragmentConfig values incl. timescale 0 and empty / 70000-byte parameter sets; builder parameter product; ADTS error values; 12 creation times up to u64::MAX in child processes with a 5 s limit. Oracle: no unwind (catch_unwind, overflow checks and debug assertions on), no stall. distinct_nontrivial counts distinct (stateless entry point, input length class, return class) triples observed plus entry points registered.", fns.len()),
             bound: format!("string length {slen}, AV1 payload bits {bits}, fragmented depth {fdepth}"),
             exhaustive: true,
             assumptions: vec!["functions whose documented purpose is to panic (assert_invariant! with a false condition, contract_test with a missing invariant) are exempt".into(), "allocation failure aborts the process and is out of scope (no input above 70000 bytes is used)".into()],
@@ -886,7 +863,7 @@ pub fn replay(case: &Value) -> i32 {
             for (n, f) in stateless_fns() {
                 if n == entry {
                     return match guarded(|| f(&d)) {
-                        Ok(()) => {
+                        Ok(_) => {
                             println!("replay: {entry}({}) returns normally", hex(&d));
                             0
                         }
